@@ -65,6 +65,16 @@ Theorem gather_order_independent : forall (lg ped : bool) (ids : list Z) (arr1 a
   fst (gather lg ped ids arr1) = fst (gather lg ped ids arr2).
 Proof. exact C09_proofs.gather_order_independent_exact_lemma. Qed.
 
+(* inside every returned family (Registry.Gather and Gatherers.Gather) the metrics are sorted by (labels, timestamp),
+   for every input and arrival order *)
+Theorem gather_metrics_sorted : forall (lg ped : bool) (ids : list Z) (arr : list emitted),
+  metrics_sorted (fst (gather lg ped ids arr)) = true.
+Proof. exact C09_proofs.gather_sorted_lemma. Qed.
+
+Theorem gatherers_metrics_sorted : forall (lg : bool) (gs : list (list family * list Z)),
+  metrics_sorted (fst (gatherers_gather lg gs)) = true.
+Proof. exact C09_proofs.gatherers_sorted_lemma. Qed.
+
 (* MetricSorter.Less: transitive, asymmetric, and total up to equal (labels, timestamp) *)
 Theorem metric_lt_strict_total_order :
   (forall a b c, metric_lt a b = true -> metric_lt b c = true -> metric_lt a c = true) /\
